@@ -12,6 +12,10 @@ Clauses (taken from the property statement):
   C02.default_frame_length_nonzero_bin   frame_length_ms=None: every rebuilt H_i has a non-zero bin, and
                       every coefficient of a white-noise frame is > 0
 
+Real banks whose top (bottom) edge sits AT the Nyquist (0 Hz) -- incl. high_hz inside the constructor's documented
+1 Hz leeway above the Nyquist -- are part of the grid on several sampling rates, with signals that carry energy
+in the Nyquist and DC bins (the full-spectrum sum counts those two bins ONCE).
+
 The oracle never calls into the computer: frames are gathered with an explicit reflection index, the
 spectrum is np.fft.fft (not rfft), H_i is rebuilt from a *separately constructed* bank instance, window values
 come from a separately constructed WindowFunction (window shapes themselves belong to C20).
@@ -66,6 +70,20 @@ BANKS_EXTRA = [
     {"kind": "fbank", "num_filts": 10, "low_hz": 0.0, "analytic": False},
     {"kind": "fbank", "num_filts": 3, "low_hz": 100.0, "high_hz": 3700.0, "analytic": True},
 ]
+
+# real banks whose last / first vertex touches the Nyquist / 0 Hz: (spec without high_hz, sampling rate, offsets of
+# high_hz from the Nyquist; > 0 is inside the documented "1 Hz leeway" of TriangularOverlappingFilterBank, None = the
+# default).  The full-spectrum sum of a real bank counts the Nyquist bin (even DFT sizes) and the DC bin once.
+EDGE_BANKS = [
+    ({"kind": "tri", "scale": "mel", "num_filts": 10, "low_hz": 20.0, "analytic": False}, 16000),
+    ({"kind": "tri", "scale": "mel", "num_filts": 5, "low_hz": 0.0, "analytic": False}, 8000),
+    ({"kind": "tri", "scale": "bark", "num_filts": 7, "low_hz": 0.0, "analytic": False}, 11025),
+    ({"kind": "tri", "scale": _LIN0, "num_filts": 4, "low_hz": 0.0, "analytic": False}, 22050),
+    ({"kind": "tri", "scale": _OCT, "num_filts": 3, "low_hz": 40.0, "analytic": False}, 44100),
+    ({"kind": "tri", "scale": "mel", "num_filts": 6, "low_hz": 20.0, "analytic": True}, 16000),
+    ({"kind": "fbank", "num_filts": 6, "low_hz": 0.0, "analytic": False}, 8000),
+]
+EDGE_OFFSETS = (1.0, 0.5, 0.96875, None, 0.0, -0.5)  # Hz above the Nyquist (Fbank documents no leeway: <= 0 only)
 
 # banks for the default-frame-length clause: (spec, sampling rate)
 DEFAULT_LEN_BANKS_QUICK = [
@@ -284,7 +302,7 @@ class _Ctx:
     def computer(self, case):
         from pydrobert.speech.compute import ShortTimeFourierTransformFrameComputer
 
-        k = repr([case[f] for f in _CONFIG_FIELDS])
+        k = repr([case[f] for f in _CONFIG_FIELDS] + [case.get("rate", RATE)])
         if k not in self.computers:
             if len(self.computers) > 64:
                 self.computers.clear()
@@ -328,8 +346,20 @@ _CONFIG_FIELDS = (
 
 
 def _signal(case):
+    """Gaussian noise (default), or with "sig": "nyquist" / "dc" / "nyquist_dc" a tone at the Nyquist frequency /
+    a constant / both, plus 1e-3 of the noise (energy concentrated in the bins a half-spectrum shortcut double counts)"""
     r = make_rng(case["seed"], "c02signal:%d:%d" % (case["N"], case.get("sig_id", 0)))
-    return r.standard_normal(case["N"]) * case.get("amp", 1.0)
+    noise = r.standard_normal(case["N"])
+    kind = case.get("sig", "gauss")
+    if kind == "gauss":
+        return noise * case.get("amp", 1.0)
+    n = np.arange(case["N"])
+    x = 1e-3 * noise
+    if "nyquist" in kind:
+        x = x + np.where(n % 2 == 0, 1.0, -1.0)
+    if "dc" in kind:
+        x = x + 0.75
+    return x * case.get("amp", 1.0)
 
 
 def _check_case(case, ctx):
@@ -343,12 +373,14 @@ def _check_case(case, ctx):
         raise RuntimeError("harness: dft_size in the case does not match frame_length/pad")
     x = _signal(case)
     N = len(x)
-    H = ctx.full_responses(case["bank"], D)
+    H = ctx.full_responses(case["bank"], D, case.get("rate", RATE))
     window = ctx.window(case["window"], case.get("window_seed", 0), case["frame_style"], L)
     want_lin = _oracle_linear(case, x, H, window)
     nf, ncoef = want_lin.shape
     info["frames"] = nf
     info["nonempty_filters"] = int(np.sum(np.any(H != 0, axis=1)))
+    info["nyquist_bin_filters"] = int(np.sum(H[:, D // 2] != 0)) if D % 2 == 0 else 0
+    info["dc_bin_filters"] = int(np.sum(H[:, 0] != 0))
 
     # conformance of A-NP-PAD with the explicit reflection (first and last frame)
     if nf and ctx.pad_checked < 200:
@@ -523,8 +555,54 @@ def _signal_lengths(L, s, rng):
     return [L // 2 + 1, big, L // 2, mid, L, 0, 1]
 
 
+def _enumerate_edge(tier, seed):
+    """real banks touching the Nyquist / 0 Hz x rates x even (and a few odd) DFT sizes x use_power x signal kinds"""
+    lengths = [(100, False), (101, True), (102, False), (128, False), (61, False), (61, True)]
+    if tier == "thorough":
+        lengths += [(130, False), (96, True), (64, False), (37, False), (75, True), (256, False)]
+    sigs = ["nyquist", "gauss", "nyquist_dc", "dc"]
+    j = 0
+    for bi, (spec0, rate) in enumerate(EDGE_BANKS):
+        for off in EDGE_OFFSETS:
+            if spec0["kind"] == "fbank" and off is not None and off > 0:
+                continue  # Fbank documents no leeway above the Nyquist
+            spec = dict(spec0)
+            if off is not None:
+                spec["high_hz"] = rate / 2.0 + off
+            for li, (L, pad) in enumerate(lengths):
+                D = _dft_size(L, pad)
+                for use_power in (False, True):
+                    for sig in sigs[:2] if tier == "quick" and (D % 2 or off not in (1.0, 0.5, None)) else sigs:
+                        j += 1
+                        style, kaldi = _STYLES[j % 3]
+                        shifts = [t for t in (37, 40, L // 2 + 3, 23) if t <= L]
+                        sh = shifts[j % len(shifts)]
+                        use_log = bool((j // 3) % 4 == 0)
+                        yield {
+                            "frame_length": L,
+                            "frame_shift": sh,
+                            "dft_size": D,
+                            "pad": pad,
+                            "frame_style": style,
+                            "kaldi_shift": kaldi,
+                            "bank": spec,
+                            "rate": rate,
+                            "window": _WINDOWS[j % len(_WINDOWS)],
+                            "window_seed": int(seed),
+                            "use_log": use_log,
+                            "use_power": use_power,
+                            "include_energy": bool(j % 2),
+                            "N": int(2 * L + sh + (j % 7)),
+                            "amp": 1.0,
+                            "sig": sig,
+                            "seed": int(seed),
+                        }
+
+
 def _enumerate(tier, seed):
     """yield cases; the most discriminating first"""
+    for case in _enumerate_edge(tier, seed):
+        yield case
     banks = list(BANKS_QUICK) + list(BANKS_EXTRA)
     lengths = _lengths(tier)
     nvar = 5 if tier == "quick" else 30
@@ -621,6 +699,7 @@ def run(tier: str, seed: int) -> dict:
     n_frames_cases = 0
     n_noframe_short = 0
     n_boundary = 0
+    n_edge = n_edge_even = n_edge_nyq = n_edge_dc = 0
     stopped_early = False
 
     # the default-frame-length clause first (few, cheap relative to its weight)
@@ -660,6 +739,11 @@ def run(tier: str, seed: int) -> dict:
             n_noframe_short += 1
         if N == L // 2 + 1:
             n_boundary += 1
+        if "sig" in case:
+            n_edge += 1
+            n_edge_even += int(case["dft_size"] % 2 == 0 and info["frames"] >= 1)
+            n_edge_nyq += int(info.get("nyquist_bin_filters", 0) > 0)
+            n_edge_dc += int(info.get("dc_bin_filters", 0) > 0)
         col.case(_case_key(case), nontrivial=nontrivial, sample=case if (col.evaluations % 997 == 20) else None)
         for clause, msg in fails:
             col.fail(clause, case, msg)
@@ -670,17 +754,25 @@ def run(tier: str, seed: int) -> dict:
     )
     col.note("log outputs: %d entries floored at LOG_FLOOR_VALUE, %d not floored" % (ctx.n_floored, ctx.n_unfloored))
     col.note("cases with >=1 frame: %d; signals shorter than L//2+1: %d; signals of exactly L//2+1: %d; default-frame-length configurations: %d, of which %d have the bandwidth term deciding the length" % (n_frames_cases, n_noframe_short, n_boundary, n_default, n_default_bw))
+    col.note(
+        "Nyquist/DC-edge block: %d cases (real triangular / Fbank banks with high_hz at Nyquist + {1, 0.5, 0.96875, default, 0, -0.5} Hz, "
+        "low_hz 0 or above; rates 8000-44100; tone at the Nyquist / constant / noise), %d with an even DFT size and >= 1 frame; "
+        "cases in which a rebuilt response is non-zero in the Nyquist bin: %d, in the DC bin: %d"
+        % (n_edge, n_edge_even, n_edge_nyq, n_edge_dc)
+    )
     if stopped_early:
         col.note("stopped early (time budget or failure cap); enumeration is ordered most-discriminating first")
     rule = (
         "grid bank x (frame_length, pad) x (frame_style, kaldi_shift) with frame_shift / window / (use_log,use_power,"
         "include_energy) / amplitude rotated deterministically (variants 0-1) then seeded, x 5-7 signal lengths "
-        "(L//2, L//2+1, L, 0/1, one mid, one of about 3L+2s); plus default-frame-length configurations. "
+        "(L//2, L//2+1, L, 0/1, one mid, one of about 3L+2s); before it a block of real banks whose top vertex is at the "
+        "Nyquist (+ the documented 1 Hz leeway) x rate x (frame_length, pad) x use_power x signal kind (tone at the Nyquist "
+        "/ constant + 1e-3 noise, Gaussian); plus default-frame-length configurations. "
         "A case is non-trivial if it is a non-empty signal shorter than L//2+1 (decides 'no frames') or yields >= 1 "
         "frame with >= 1 filter that has a non-zero bin (values compared); default-length cases if the bank has filters."
     )
     bound = (
-        "sampling rate 8000 Hz; %d banks (Gabor low_hz 0/20, gammatone, triangular real/analytic, Fbank real/analytic; mel, "
+        "sampling rate 8000 Hz (edge block: 8000, 11025, 16000, 22050, 44100 Hz); %d banks (Gabor low_hz 0/20, gammatone, triangular real/analytic, Fbank real/analytic; mel, "
         "bark, linear, octave; 2-12 filters); frame lengths %s with DFT sizes %s; shifts {37,40,L//2+3,L,23,7,1,2} (<= L); "
         "8 windows incl. a seeded asymmetric one; all 8 flag triples; Gaussian signals of amplitude {0,1e-3,0.02,1,30,50}, "
         "N <= about 3L+3s; float64 only; default-frame-length clause on %d bank/rate/pad/EFFECTIVE_SUPPORT_THRESHOLD configurations (8-44.1 kHz, up to 80 filters, thresholds default/0.05-0.6)"
